@@ -198,10 +198,10 @@ def run_property(modname: str, tier: str, seed: int, replay: str | None = None) 
     ftargets, fthms = [], {}
     for fname in getattr(mod, 'FOUNDATIONS', []):
         fmod = importlib.import_module(fname)
-        # a foundation may scope its obligations per property: `for_property(pid)` -> {'LEAN_TARGETS': [...], 'THEOREMS': {...}}
-        fspec = fmod.for_property(pid) if hasattr(fmod, 'for_property') else {}
-        ftargets += list(fspec.get('LEAN_TARGETS', getattr(fmod, 'LEAN_TARGETS', [])))
-        fthms.update(fspec.get('THEOREMS', getattr(fmod, 'THEOREMS', {})))
+        if hasattr(fmod, 'for_property'):
+            fmod.for_property(pid)      # a foundation serving several properties narrows LEAN_TARGETS / THEOREMS / cases() to this one
+        ftargets += list(getattr(fmod, 'LEAN_TARGETS', []))
+        fthms.update(getattr(fmod, 'THEOREMS', {}))
     lean = core.lean_obligations(pid, list(getattr(mod, 'LEAN_TARGETS', None) or []) + ftargets, fthms)
     if not lean.get('driver_ok', False):
         # without a driver nothing can be compared; report the broken obligation
@@ -240,9 +240,10 @@ def run_property(modname: str, tier: str, seed: int, replay: str | None = None) 
     # their correspondence runs are part of the tie; a disagreement is a 'model' finding
     for fname in getattr(mod, 'FOUNDATIONS', []):
         fmod = importlib.import_module(fname)
+        if hasattr(fmod, 'for_property'):
+            fmod.for_property(pid)
         frng = random.Random(seed * 31337 + 3)
-        # a foundation may scope its correspondence run per property: `cases_for(pid, rng, tier)`
-        fcases = list(fmod.cases_for(pid, frng, tier) if hasattr(fmod, 'cases_for') else fmod.cases(frng, tier))
+        fcases = list(fmod.cases(frng, tier))
         fres = evaluate_parallel(fmod, fcases)
         for c in fcases:
             c.setdefault('foundation', fname)
